@@ -103,3 +103,8 @@ def run(rep: Report, prog: Program, tier: str) -> None:
     pure_property(rep, "R7.7", prog, CB, "state", "_state")
     records_transparent(rep, "R7.7", prog, ["redress.circuit:_BreakerDecision"])
     rep.floor("R7.7", 2)
+    rep.rule("R7.8", "the probe's fate is reported truthfully: at every exit of an admitted call the single breaker record matches how the call ended - success closes the breaker, a failure re-opens it, an abort / cancellation only frees the slot (= C09 R9.1 / R9.2 on the same typestate)")
+    from .c09 import record_by_outcome
+
+    record_by_outcome(rep, "R7.8", "R7.8", prog)
+    rep.floor("R7.8", 100)
